@@ -321,10 +321,12 @@ def timedelta(s):
             if not _td_in_range(t):
                 refused = True      # a component alone is unrepresentable
             total += t
-        if fine and _td_in_range(total):
+        if fine and (_td_in_range(total) or _td_on_edge(total)):
             a = ApproxTimedelta(total)
             if not any(a.micro == o.micro for o in oks):
                 oks.append(a)
+            if _td_on_edge(total):
+                refused = True
         else:
             refused = True
     if not oks:
@@ -336,7 +338,13 @@ def timedelta(s):
 
 
 def _td_in_range(t):
-    return _TD_MIN_US - 1 <= t <= _TD_MAX_US + 1
+    return _TD_MIN_US <= t <= _TD_MAX_US
+
+
+def _td_on_edge(t):
+    """Within one microsecond outside the representable range: rounding
+    decides, both outcomes are acceptable."""
+    return (not _td_in_range(t)) and _TD_MIN_US - 1 <= t <= _TD_MAX_US + 1
 
 
 # ------------------------------------------------------------ inet addresses
@@ -498,8 +506,10 @@ def _ipaddr_or_hostname(s):
         return BAD("invalid-ipv6")
     if s and (is_letter(s[0]) or s[0] == "_"):
         if _valid_hostname(s):
-            return OK(s.lower(),
-                      "hostname-single-char" if len(s) == 1 else "hostname")
+            if len(s) == 1:
+                # the statement does not say whether a one-character name is a host name
+                return EITHER([s.lower()], "hostname-single-char")
+            return OK(s.lower(), "hostname")
         return BAD("invalid-hostname")
     if _valid_ipv4(s):
         return OK(s, "ipv4")
